@@ -49,6 +49,7 @@ def run_history(spec, hdir: Path, timeout=600):
                    run_again=spec.get("run_again", 0), save=spec.get("save"),
                    signal_handling=spec.get("signal_handling", False))
         cfg.update(spec.get("extra", {}))
+        cfg.update(spec.get("extra_by_proc", {}).get(str(proc), {}))
         cpath = hdir / f"cfg{proc}.json"
         cpath.write_text(json.dumps(cfg))
         try:
@@ -91,6 +92,20 @@ CHECK_DEADLOCK FALSE
 """
 
 
+def promote_completed_ckpt(raw):
+    """A kill injected after the final rename of a checkpoint left the NEW
+    checkpoint on disk although the observer's `ckpt` event (emitted when the
+    dump returns) never appeared: turn the preceding ckpt_begin into it."""
+    for i, e in enumerate(raw):
+        if e["ev"] == "fault" and e.get("kind") == "ckpt" and \
+                any(o.startswith("move:") and ".temp->" in o for o in e.get("ops_done", [])):
+            for j in range(i - 1, -1, -1):
+                if raw[j]["ev"] == "ckpt_begin" and raw[j]["proc"] == e["proc"]:
+                    raw[j] = dict(raw[j], ev="ckpt")
+                    break
+    return raw
+
+
 def validate_standard(histories, scratch: Path, tag="std"):
     """Pack the histories, run TLC per nlive. Returns (records, stats).
 
@@ -98,7 +113,7 @@ def validate_standard(histories, scratch: Path, tag="std"):
     l: event index within history, ev: the packed event}."""
     packed = []
     for h in histories:
-        raw = load_events([f for f in h["events"] if os.path.exists(f)])
+        raw = promote_completed_ckpt(load_events([f for f in h["events"] if os.path.exists(f)]))
         evs, info = pack_standard(raw)
         packed.append(evs)
     groups = {}
